@@ -1,17 +1,35 @@
-"""debug helper: run a check function and summarise violations by (op, aspect, position)."""
+"""debug helper: run a check function and summarise violations (shortest example per group)."""
 import collections, json, sys
 from . import env
 env.install()
-from . import common, registry
+from . import common, registry, val
 orig = common.Run.violation
 agg = collections.Counter(); ex = {}
+def short(i):
+    a = i.get("a")
+    if a == "op":
+        o = i["op"]; args = ",".join(f"{k}={json.dumps(val.to_py(v)) if isinstance(v, dict) else v}" for k, v in o.items() if k != "op")
+        return f"{i.get('o','')}.{o['op']}({args})"
+    if a == "ext": return f"ext({i['r']}={json.dumps(val.to_py(i['v']))})"
+    if a in ("enterB", "setcap"): return f"{a}({i['c']})"
+    if a == "enterO": return f"enterO({i['o']})"
+    return a
 def vio(self, case):
-    k = (case.get("op"), case.get("aspect"), case.get("position"), case.get("cls","")[:40] if len(sys.argv)>3 else "")
-    agg[k]+=1; ex.setdefault(k, case)
+    k = (case.get("op"), case.get("aspect") or case.get("failing_clause"), case.get("position") or case.get("strategy"), case.get("kind"), case.get("scen"))
+    agg[k]+=1
+    size = len(case.get("inputs") or case.get("history") or [])
+    if k not in ex or size < ex[k][0]: ex[k] = (size, case)
     return orig(self, case)
 common.Run.violation = vio
 rc = registry.CHECKS[sys.argv[1]](sys.argv[2])
 for k,n in sorted(agg.items(), key=lambda x:-x[1]):
-    e = ex[k]
-    print(n, k, "|", e.get("detail","")[:200], "| lab=", json.dumps(e.get("lab"))[:150], "pre=", json.dumps(e.get("pre"))[:120])
+    e = ex[k][1]
+    if "inputs" in e:
+        init = {f: (json.dumps(val.to_py(d)), e["init"]["ex"][f]) for f, d in e["init"]["docs"].items()}
+        ob = e.get("observed") or {}
+        obs = {"ret": ob.get("ret"), "errs": ob.get("errs"), "kind": ob.get("kind"), "size": ob.get("size"), "cap": ob.get("cap"),
+               "files": {f: (json.dumps(val.to_py(v["doc"])) if v["doc"]["t"] in "dl" else v["doc"], v["ex"], v["w"]) for f, v in (ob.get("files") or {}).items()}}
+        print(n, k, e["cls"], "| init", init, "|", " ; ".join(short(i) for i in e["inputs"]), "| OBS", json.dumps(obs)[:300], "|", e.get("aborted"))
+    else:
+        print(n, k, "|", str(e.get("detail"))[:300], "| lab=", json.dumps(e.get("lab"))[:200], "pre=", json.dumps(e.get("pre"))[:150])
 print("rc", rc)
